@@ -259,6 +259,21 @@ var catalog = map[string]call{
 			l.SetEmpty(am.LogOps)
 		}
 	}),
+	// the pipe registry of the logger (what pkg/states/pipes and a piped peer's disposal call)
+	"SemLoggerPipes": w("SemLoggerPipes", func(e *env) {
+		l := e.m.SemLogger()
+		peer := fmt.Sprintf("peer%d", e.k%3)
+		switch e.k % 5 {
+		case 0:
+			l.AddPipeOut(e.k%2 == 0, e.st(0), peer)
+		case 1:
+			l.AddPipeIn(e.k%2 == 0, e.st(0), peer)
+		case 2:
+			l.RemovePipes(peer)
+		default:
+			_ = l.Pipes()
+		}
+	}),
 	"Log":                func(e *env) { e.m.Log("msg %d", e.k) },
 	"LogEv":              func(e *env) { e.m.LogEv(nil, "msg") },
 	"LogCtx":             func(e *env) { e.m.LogCtx(e.ctx, "msg") },
@@ -442,6 +457,10 @@ func runNetmach(p Program) {
 	var wg sync.WaitGroup
 	var stop atomic.Bool
 	user := p.Schema.UserNames()
+	// every other program logs (an empty logger with a level: log entries are collected for the next clock update)
+	if len(p.Goroutines)%2 == 0 {
+		nm.SemLogger().SetEmpty(am.LogEverything)
+	}
 	// feeder
 	wg.Add(1)
 	go func() {
@@ -450,8 +469,12 @@ func runNetmach(p Program) {
 		for i := 0; i < 200; i++ {
 			tm = append(am.Time{}, tm...)
 			tm[i%len(tm)]++
+			q := uint64(i + 1)
+			if i%25 == 24 {
+				q = 0 // a restarted source (and pubsub's first update): the queue tick goes backwards
+			}
 			internal.Lock()
-			internal.UpdateClock(tm, uint64(i+1), 0)
+			internal.UpdateClock(tm, q, 0)
 		}
 		stop.Store(true)
 	}()
@@ -513,6 +536,20 @@ func runNetmach(p Program) {
 						_ = nm.Tracers()
 					case "Handlers":
 						_ = nm.Handlers()
+					case "HandlersBind":
+						if round%50 == 0 {
+							_, _ = nm.HandlersBind(&struct{}{}, am.BindOpts{Id: fmt.Sprintf("hb%d-%d", gi, round)})
+						}
+					case "HandlersDetach":
+						_ = nm.HandlersDetach("nope")
+					case "Log":
+						nm.Log("c12 %d", round)
+					case "WhenQueue":
+						_ = nm.WhenQueue(am.Result(nm.QueueTick() + 1 + uint64(round%3)))
+					case "OnDispose":
+						if round%50 == 0 {
+							nm.OnDispose(func(string, context.Context) {})
+						}
 					}
 				}
 			}
@@ -541,12 +578,23 @@ func runNetmach(p Program) {
 		fmt.Fprintln(os.Stderr, "=== CHILD DONE")
 		os.Exit(0)
 	}
+	// disposal while dispose handlers are still being registered
+	var dw sync.WaitGroup
+	dw.Add(1)
+	go func() {
+		defer dw.Done()
+		for i := 0; i < 50; i++ {
+			nm.OnDispose(func(string, context.Context) {})
+		}
+	}()
+	nm.Dispose()
+	dw.Wait()
 	parent.Dispose()
 }
 
 var netmachCalls = []string{"Is", "Not", "Any1", "Time", "Clock", "Tick", "ActiveStates", "String", "StringAll", "Inspect", "When1", "WhenNot1",
 	"WhenTime1", "NewStateCtx", "QueueTick", "MachineTick", "IsClock", "WasTime", "Switch", "Export", "Transition", "Err", "TracerBind",
-	"Tracers", "Handlers"}
+	"Tracers", "Handlers", "HandlersBind", "HandlersDetach", "Log", "WhenQueue", "OnDispose"}
 
 // ---- parent
 
@@ -799,6 +847,15 @@ func TestKnownAndRegressions(t *testing.T) {
 			{"HandlersBind", "HandlersDetach", "HandlersBindMaps", "HandlersDetach", "Toggle1", "HandlersBind", "HandlersDetach"}}}
 	if err := checkPrograms([]Program{pb}, st); err != nil {
 		t.Fatalf("C12 violated (scenario, bind/detach during transitions): %v", err)
+	}
+	// the logger's pipe registry: pipes are registered and read (debugger tracer) while piped peers get disposed
+	// (their OnDispose handler removes their pipes) - a slice compacted in place under a reader
+	pp := Program{Kind: "machine", Schema: sc, Reps: 15, Goroutines: [][]string{
+		{"SemLoggerPipes", "SemLoggerPipes", "SemLoggerPipes", "SemLoggerPipes", "SemLoggerPipes", "Add1", "SemLoggerPipes", "SemLoggerPipes"},
+		{"SemLoggerPipes", "SemLoggerPipes", "SemLoggerPipes", "Remove1", "SemLoggerPipes", "SemLoggerPipes", "SemLoggerPipes"},
+		{"SemLoggerPipes", "SemLoggerPipes", "Toggle1", "SemLoggerPipes", "SemLoggerPipes", "SemLoggerPipes", "SemLoggerPipes", "SemLoggerPipes", "SemLoggerPipes"}}}
+	if err := checkPrograms([]Program{pp}, st); err != nil {
+		t.Fatalf("C12 violated (scenario, pipe registry of the logger): %v", err)
 	}
 }
 
